@@ -6,7 +6,8 @@
    Oracle tables hold primitive calls only; a miss yields a poisoned value or an
    error, hence a disagreement. *)
 From Coq Require Import ZArith List String Ascii Bool Uint63.
-From GSP Require Import Base.Prelude Base.Decode Codec.Desc Codec.Json Codec.Time Codec.Model Codec.Inst.
+From GSP Require Import Base.Prelude Base.Decode Codec.Desc Codec.Json Codec.Time Codec.Model Codec.Inst Codec.State.
+From GSP Require Import Generated.Structs.
 Import ListNotations.
 Open Scope list_scope.
 
@@ -51,7 +52,13 @@ Inductive cobs :=
 
 Inductive ccase :=
 | CCred (id : int) (doc : rjson) (o : cobs)
-| CDid (id : int) (doc : rjson) (o : cobs).
+| CDid (id : int) (doc : rjson) (o : cobs)
+(* the distinct encodings of the credential observed AFTER Merklize / ToCoreClaim /
+   VerifyProof calls (succeeding and failing) on a fresh decode of doc *)
+| CPure (id : int) (doc : rjson) (posts : list rjson)
+(* json.Unmarshal(prev, &as); json.Unmarshal(doc, &as) on one []Authentication; its
+   encoding and the kinds of its entries *)
+| CReuseAuth (id : int) (prev doc : rjson) (enc : rjson) (kinds : list string).
 
 Definition res_json_is (r : res json) (want : rjson) : bool :=
   match r with Ok j => json_eqb j (json_of want) | _ => false end.
@@ -79,9 +86,27 @@ Definition agree_did (O : oracles) (doc : rjson) (o : cobs) : bool :=
   | _, _ => false
   end.
 
+(* the credential after the state-passing model of verifyCredentialCoreClaim (hence of
+   ToCoreClaim and Merklize); the external steps are arbitrary: they cannot matter *)
+Definition post_state (O : oracles) (c : list gval) : list gval :=
+  fst (verifyclaim_st O repo_env merklize_deleted d_W3CCredential unit unit
+         (fun _ => Err "jsonld") (fun _ _ => Err "build") (fun _ => Err "compare") c).
+
+Definition agree_pure (O : oracles) (doc : rjson) (posts : list rjson) : bool :=
+  match cred_decode O (json_of doc) with
+  | Ok c => forallb (res_json_is (cred_encode (post_state O c))) posts
+  | _ => false
+  end.
+
+Definition agree_reuse_auth (O : oracles) (prev doc enc : rjson) (kinds : list string) : bool :=
+  res_json_is (reuse_auths O repo_env (json_of prev) (json_of doc)) enc &&
+  list_eqb String.eqb (reuse_auth_kinds O repo_env (json_of prev) (json_of doc)) kinds.
+
 Definition cmismatches (O : oracles) (cs : list ccase) : list int :=
   fold_right (fun c acc =>
     match c with
     | CCred id doc o => if agree_cred O doc o then acc else id :: acc
     | CDid id doc o => if agree_did O doc o then acc else id :: acc
+    | CPure id doc posts => if agree_pure O doc posts then acc else id :: acc
+    | CReuseAuth id prev doc enc kinds => if agree_reuse_auth O prev doc enc kinds then acc else id :: acc
     end) [] cs.
